@@ -137,7 +137,7 @@ def get_uid(n):
             obls += res['obligations']
             funcs += res['funcs']
         return {'obligations': obls, 'funcs': funcs, 'paths': paths}
-    return Scenario(label, KEY + '.get_uid', gen, props=('C15', 'C16', 'C19'))
+    return Scenario(label, KEY + '.get_uid', gen, props=('C15', 'C16'))
 
 
 _base_scn_g = scenarios
